@@ -38,7 +38,7 @@ WD    == E.ev = "wdropped"  /\ Step(P!QWDropped(mon))
 SB    == E.ev = "sbegin"    /\ Step(P!QSampleBegin(mon))
 Sm    == E.ev = "sample"    /\ Step(P!QSample(mon, E.s, E.d, E.q, E.p))
 SP    == E.ev = "spanic"    /\ Step(P!QSamplePanic(mon))
-Bk    == E.ev = "bulk"      /\ Step(P!QBulk(mon, E.okn, E.deln))
+Bk    == E.ev = "bulk"      /\ Step(P!QBulk(mon, E.okn, E.deln, E.refn))
 DLat  == E.ev = "droplat"   /\ Step(P!QDropLatency(mon, E.n, E.min))
 Lat   == E.ev = "latency"   /\ Step(P!QLatency(mon, E.nref, E.minref, E.nok, E.minok))
 Qu    == E.ev = "quiesce"   /\ Step(P!QQuiesce(mon, E.s, E.d, E.q, E.p))
